@@ -574,6 +574,21 @@ def oracle_container(case, obs):
             mem = sorted(g)
             if sorted(int(x.split(":")[1]) for x in nodes_t) != mem:
                 return "step %d `%s`: node statements %s, members %s" % (si, st, nodes_t, mem)
+            # node attributes: exactly what the node callback supplies, verbatim (variant 1: a label with a GraphViz escape;
+            # variant 2: label and value for even keys only)
+            na = t[3] if op == "gdota" else "0"
+            want_n = []
+            for k in mem:
+                if na == "1" or (na == "2" and k % 2 == 0):
+                    a = '[label="n%d\\l"]' % k
+                    if na == "2":
+                        a += '[v="%d"]' % nvals[g[k]]
+                    want_n.append("N:%d:%s" % (k, a))
+                else:
+                    want_n.append("N:%d" % k)
+            if sorted(nodes_t) != sorted(want_n):
+                bad = sorted(set(nodes_t) ^ set(want_n))[:4]
+                return "step %d `%s`: node statements differ from what the callback supplies, e.g. %s" % (si, st, bad)
             want = []
             for k in mem:
                 u = g[k]
